@@ -15,8 +15,13 @@ VD1 == ClampedDirs({1}, <<Half>>, 1)
 VD2 == ClampedDirs({1, 2}, <<Half>>, 1)
 VolSet == IF VolMode = 0 THEN {} ELSE
   {s \in Volumes(VD2, VD2, IF VolMode = 1 THEN VD1 ELSE VD2, BOOLEAN, Seed) :
-      DiffSizes(s) /\ (VolMode > 1 \/ (s.deg[1] = 1 /\ s.deg[2] = 2))}
-MCShapes == CurveSet \cup SurfSet \cup VolSet
+      DiffSizes(s) /\ (VolMode > 1 \/ (s.deg[1] = 1 /\ s.deg[2] = 2) \/ (s.deg[1] = 2 /\ s.deg[2] = 1 /\ ~s.rat))}
+\* clamped but non-normalised knot vectors with a different range in every direction (objects built with normalize_kv = False)
+RawU == <<2, AffineKV(MkClamped(2, <<Half>>, <<1>>), RI(3), RI(0))>>
+RawV == <<1, AffineKV(MkClamped(1, <<Half>>, <<1>>), RI(2), RI(-1))>>
+RawW == <<1, AffineKV(MkClamped(1, <<Half>>, <<0>>), R(1,2), RI(4))>>
+RawSet == IF SurfMode = 0 THEN {} ELSE Surfaces({RawU}, {RawV}, {3}, BOOLEAN, Seed) \cup Volumes({RawV}, {RawU}, {RawW}, {FALSE}, Seed)
+MCShapes == CurveSet \cup SurfSet \cup VolSet \cup RawSet
 DepthOf(s) == IF PDim(s) = 1 THEN DepthCurve ELSE IF PDim(s) = 2 THEN DepthSurf ELSE DepthVol
 
 Next == /\ Len(hist) < DepthOf(sh0)
